@@ -43,7 +43,30 @@ pub const COMMIT_ALPHABET: &[&str] = &[
 pub const ALPHABET: &[&str] = &[
     "X.set_dirty", "X.set_dirty.stored", "T.any_savepoint", "X.esp", "X.esp.locked", "T.register_read", "T.alloc_savepoint",
     "X.esp.unlocked", "M.get_data_root", "M.get_version", "T.dealloc_savepoint", "T.dealloc_read",
+    // persistent_savepoint: before / inside its system_tables section
+    "X.psp.system", "X.psp.system.locked",
 ];
+
+/// contention families (kinds ctn-*): the points before and inside the freed_pages sections of the table operations and
+/// inside the tables / system_tables sections of the non-dirtying holders, in addition to ALPHABET
+pub const CTN_EXTRA: &[&str] = &[
+    "F.merge", "F.get_mut", "F.get_mut.locked", "F.mmvalue_drop", "F.mmvalue_drop.locked", "F.mmremove", "F.mmremove.locked",
+    "F.drain", "F.drain.locked", "F.delete_table", "F.delete_table.locked", "X.list_tables.locked", "X.stats.tables", "X.stats.system",
+    "X.inner_open", "X.sysread.locked",
+];
+/// kinds ctn-read-*: additionally every backend read (cache size 0: every page access)
+pub const READ_POINT: &str = "CB.read.checked";
+
+fn alphabet_of(sc: &Scenario) -> Vec<&'static str> {
+    let mut v: Vec<&'static str> = ALPHABET.to_vec();
+    if sc.contend {
+        v.extend_from_slice(CTN_EXTRA);
+    }
+    if sc.park_reads {
+        v.push(READ_POINT);
+    }
+    v
+}
 
 fn tname(tb: u64) -> String {
     format!("t{tb}")
@@ -55,6 +78,63 @@ thread_local! {
     static MTABLES: RefCell<BTreeMap<u64, MultimapTable<'static, u64, u64>>> = const { RefCell::new(BTreeMap::new()) };
 }
 
+#[derive(Clone, Copy, Debug, PartialEq, Eq)]
+enum OpKind {
+    Insert,
+    Remove,
+    PopFirst,
+    PopLast,
+    /// retain(|k, _| !(a <= k < b))
+    RetainOut,
+    /// get_mut(a), then AccessGuardMut::insert(b) if the key is there
+    GetMut,
+    /// entry(a).and_modify(|g| g.insert(b))
+    EntryModify,
+    /// entry(a).or_insert(b)
+    EntryOrInsert,
+    /// extract_if(|k, _| a <= k < b), every entry read
+    ExtractRange,
+    MmInsert,
+    MmRemove,
+    MmRemoveAll,
+}
+
+impl OpKind {
+    const ALL: [OpKind; 12] = [OpKind::Insert, OpKind::Remove, OpKind::PopFirst, OpKind::PopLast, OpKind::RetainOut, OpKind::GetMut,
+                               OpKind::EntryModify, OpKind::EntryOrInsert, OpKind::ExtractRange, OpKind::MmInsert, OpKind::MmRemove, OpKind::MmRemoveAll];
+    fn code(self) -> usize {
+        OpKind::ALL.iter().position(|k| *k == self).unwrap()
+    }
+    fn is_mm(self) -> bool {
+        matches!(self, OpKind::MmInsert | OpKind::MmRemove | OpKind::MmRemoveAll)
+    }
+    fn name(self) -> &'static str {
+        ["insert", "remove", "pop_first", "pop_last", "retain", "get_mut", "entry.and_modify", "entry.or_insert", "extract_if", "multimap insert", "multimap remove", "multimap remove_all"][self.code()]
+    }
+}
+
+/// calls that take the `tables` (and / or `system_tables`) mutex of the transaction WITHOUT making it dirty
+#[derive(Clone, Copy, Debug, PartialEq, Eq)]
+enum HoldKind {
+    ListTables,
+    ListMultimap,
+    Stats,
+    /// open_table with the wrong type (TableTypeMismatch / TableIsMultimap): fails under the tables mutex
+    FailOpen,
+    /// list_persistent_savepoints(): the system_tables mutex only
+    ListPsp,
+}
+
+impl HoldKind {
+    const ALL: [HoldKind; 5] = [HoldKind::ListTables, HoldKind::ListMultimap, HoldKind::Stats, HoldKind::FailOpen, HoldKind::ListPsp];
+    fn code(self) -> usize {
+        HoldKind::ALL.iter().position(|k| *k == self).unwrap() + 1
+    }
+    fn name(self) -> &'static str {
+        ["list_tables", "list_multimap_tables", "stats", "open_table of the wrong type", "list_persistent_savepoints"][self.code() - 1]
+    }
+}
+
 #[derive(Clone, Debug, PartialEq, Eq)]
 enum Call {
     Open(u64),
@@ -63,6 +143,11 @@ enum Call {
     Close(u64),
     Savepoint(u64),
     DropSavepoint(u64),
+    /// a table operation of the contention families: (kind, table, a, b)
+    Op(OpKind, u64, u64, u64),
+    Hold(HoldKind, u64),
+    /// delete_table / delete_multimap_table of a table nobody has open
+    Delete(u64),
 }
 
 /// tables with id >= 100 are multimap tables
@@ -85,10 +170,23 @@ impl Call {
             Call::Close(t) => format!("C{t}"),
             Call::Savepoint(h) => format!("S{h}"),
             Call::DropSavepoint(h) => format!("R{h}"),
+            Call::Op(k, t, a, b) => format!("M{}.{t}.{a}.{b}", k.code()),
+            Call::Hold(k, t) => format!("H{}.{t}", k.code()),
+            Call::Delete(t) => format!("L{t}"),
         }
     }
     fn needs_mutex_at_entry(&self) -> bool {
-        matches!(self, Call::Open(_) | Call::Close(_))
+        matches!(self, Call::Open(_) | Call::Close(_) | Call::Delete(_)) || matches!(self, Call::Hold(k, _) if *k != HoldKind::ListPsp)
+    }
+    fn describe(&self) -> String {
+        match self {
+            Call::Op(k, t, a, b) => format!("{}({a}, {b}) on table {t}", k.name()),
+            Call::Hold(k, _) => format!("{}()", k.name()),
+            Call::Delete(t) => format!("delete_table({t})"),
+            Call::Savepoint(h) if is_persistent(*h) => "persistent_savepoint()".into(),
+            Call::Savepoint(_) => "ephemeral_savepoint()".into(),
+            c => c.text(),
+        }
     }
 }
 
@@ -188,6 +286,76 @@ fn job(sh: Arc<Shared>, call: Call) -> Box<dyn FnOnce() -> String + Send> {
                 None => "ERR(no savepoint)".into(),
             }
         }
+        Call::Op(kind, tb, a, b) if kind.is_mm() => MTABLES.with(|m| match m.borrow_mut().get_mut(&tb) {
+            Some(t) => {
+                let r: Result<(), redb::StorageError> = match kind {
+                    OpKind::MmInsert => t.insert(a, b).map(|_| ()),
+                    OpKind::MmRemove => t.remove(a, b).map(|_| ()),
+                    _ => t.remove_all(a).map(|v| drop(v)),
+                };
+                r.map(|()| "ok".to_string()).unwrap_or_else(|e| format!("ERR({e})"))
+            }
+            None => "ERR(not open)".into(),
+        }),
+        Call::Op(kind, tb, a, b) => TABLES.with(|m| match m.borrow_mut().get_mut(&tb) {
+            Some(t) => {
+                let r: Result<(), redb::StorageError> = (|| {
+                    match kind {
+                        OpKind::Insert => drop(t.insert(a, b)?),
+                        OpKind::Remove => drop(t.remove(a)?),
+                        OpKind::PopFirst => drop(t.pop_first()?),
+                        OpKind::PopLast => drop(t.pop_last()?),
+                        OpKind::RetainOut => t.retain(|k, _| !(a <= k && k < b))?,
+                        OpKind::GetMut => {
+                            if let Some(mut g) = t.get_mut(a)? {
+                                g.insert(b)?;
+                            }
+                        }
+                        OpKind::EntryModify => drop(t.entry(a)?.and_modify(|g| g.insert(b))?),
+                        OpKind::EntryOrInsert => drop(t.entry(a)?.or_insert(b)?),
+                        _ => {
+                            let mut it = t.extract_if(|k, _| a <= k && k < b)?;
+                            for e in it.by_ref() {
+                                e?;
+                            }
+                            it.close()?;
+                        }
+                    }
+                    Ok(())
+                })();
+                r.map(|()| "ok".to_string()).unwrap_or_else(|e| format!("ERR({e})"))
+            }
+            None => "ERR(not open)".into(),
+        }),
+        Call::Hold(kind, tb) => match kind {
+            HoldKind::ListTables => sh.tx().list_tables().map(|it| { let _ = it.count(); "ok".to_string() }).unwrap_or_else(|e| format!("ERR({e})")),
+            HoldKind::ListMultimap => sh.tx().list_multimap_tables().map(|it| { let _ = it.count(); "ok".to_string() }).unwrap_or_else(|e| format!("ERR({e})")),
+            HoldKind::Stats => sh.tx().stats().map(|_| "ok".to_string()).unwrap_or_else(|e| format!("ERR({e})")),
+            HoldKind::ListPsp => sh.tx().list_persistent_savepoints().map(|it| { let _ = it.count(); "ok".to_string() }).unwrap_or_else(|e| format!("ERR({e})")),
+            HoldKind::FailOpen => {
+                // the table exists with the other kind: the open must fail, inside the tables section, without dirtying
+                let name: &'static str = Box::leak(tname(tb).into_boxed_str());
+                let failed = if is_mm(tb) {
+                    sh.tx().open_table(TableDefinition::<u64, u64>::new(name)).is_err()
+                } else {
+                    sh.tx().open_multimap_table(MultimapTableDefinition::<u64, u64>::new(name)).is_err()
+                };
+                if failed { "ok".into() } else { "ERR(an open_table of the wrong type succeeded)".into() }
+            }
+        },
+        Call::Delete(tb) => {
+            let name: &'static str = Box::leak(tname(tb).into_boxed_str());
+            let r = if is_mm(tb) {
+                sh.tx().delete_multimap_table(MultimapTableDefinition::<u64, u64>::new(name))
+            } else {
+                sh.tx().delete_table(TableDefinition::<u64, u64>::new(name))
+            };
+            match r {
+                Ok(true) => "ok".into(),
+                Ok(false) => "ERR(no such table)".into(),
+                Err(e) => format!("ERR({e})"),
+            }
+        }
     })
 }
 
@@ -227,6 +395,17 @@ struct Scenario {
     /// inside the commit gap: the dropping thread gets `d` grants (entering the call included), then the committer `k`
     /// more, then the drop is finished (None: the whole drop runs at once)
     drop_split: Option<(usize, usize)>,
+    /// contention families: the pause points before / inside the freed_pages sections and inside the tables / system_tables
+    /// sections of the non-dirtying holders are stop points too, and a grant is also given to a thread whose next step
+    /// needs a mutex that a stopped thread holds (the thread must then BLOCK until the holder has left the section)
+    contend: bool,
+    /// additionally every backend read is a stop point (cache size 0: every page access)
+    park_reads: bool,
+    /// every table the programs name exists before the shared transaction, with this many rows (the catalog is then
+    /// changed by delete_table and by the commit's flush only: page counts do not depend on the schedule)
+    all_exist: Option<u64>,
+    /// the parked thread's grants are counted from the entry of this call of its program (it runs alone up to there)
+    park_call: usize,
 }
 
 fn open_db(file: &Arc<MemFile>, cache: usize) -> Database {
@@ -361,6 +540,10 @@ struct Outcome {
     /// implementation's tracker and the two system tables look like right after the commit
     cg_case: Option<String>,
     cg_impl: Option<String>,
+    /// length of the transaction's freed-pages list when the threads' phase is over (contention families: the model's s_freed)
+    freed_len: Option<usize>,
+    /// grants after which the thread blocked on a mutex a stopped thread held
+    blocked_grants: usize,
 }
 
 /// an order-0 page unit as one number (the CommitGap model's page ids)
@@ -453,18 +636,38 @@ fn cg_final_state(db: &Database) -> Result<String, String> {
     ))
 }
 
-fn execute(sc: &Scenario, ctl: &Arc<Controller>) -> Outcome {
-    let mut out = Outcome { log: vec![], results: vec![], tracking: String::new(), dirty: false, violations: vec![], interleaved: false, digests: vec![], cg_case: None, cg_impl: None };
+/// every table a program names (opened, deleted, opened with the wrong type)
+fn tables_of(sc: &Scenario) -> BTreeSet<u64> {
+    sc.progs.iter().flatten().filter_map(|c| match c {
+        Call::Open(t) | Call::Delete(t) | Call::Hold(HoldKind::FailOpen, t) => Some(*t),
+        _ => None,
+    }).collect()
+}
+
+struct Setup {
+    file: Arc<MemFile>,
+    db: Database,
+    all_tables: BTreeSet<u64>,
+    spec: Spec,
+    mspec: MSpec,
+    pre_sp: Option<Savepoint>,
+    hist: Hist,
+}
+
+/// the database before the shared transaction: seeded tables, then the history (a function of the scenario only: the
+/// reference run of the contention families builds the identical image a second time)
+fn setup(sc: &Scenario) -> Setup {
     let file = MemFile::new();
     let db = open_db(&file, sc.cache);
-    let all_tables: BTreeSet<u64> = sc.progs.iter().flatten().filter_map(|c| if let Call::Open(t) = c { Some(*t) } else { None }).collect();
-    // seed: every second table exists already with some rows
+    let all_tables = tables_of(sc);
+    // seed: every second table exists already with some rows (contention families: every table, with more rows)
     let mut spec = Spec::new();
     let mut mspec = MSpec::new();
     {
         let tx = db.begin_write().unwrap();
         for tb in &all_tables {
-            if tb % 2 == 0 {
+            if tb % 2 == 0 || sc.all_exist.is_some() {
+                let rows = sc.all_exist.map(|n| n + 37 * (tb % 5)).unwrap_or(40);
                 if is_mm(*tb) {
                     let def: MultimapTableDefinition<u64, u64> = MultimapTableDefinition::new(Box::leak(tname(*tb).into_boxed_str()));
                     let mut t = tx.open_multimap_table(def).unwrap();
@@ -472,10 +675,19 @@ fn execute(sc: &Scenario, ctl: &Arc<Controller>) -> Outcome {
                         t.insert(k, k + 1).unwrap();
                         mspec.entry(*tb).or_default().entry(k).or_default().insert(k + 1);
                     }
+                    if sc.all_exist.is_some() {
+                        // keys 0 and 3 hold enough values to live in their own subtrees
+                        for k in [0u64, 3] {
+                            for v in 0..rows / 2 {
+                                t.insert(k, 100 + v).unwrap();
+                                mspec.entry(*tb).or_default().entry(k).or_default().insert(100 + v);
+                            }
+                        }
+                    }
                 } else {
                     let def: TableDefinition<u64, u64> = TableDefinition::new(Box::leak(tname(*tb).into_boxed_str()));
                     let mut t = tx.open_table(def).unwrap();
-                    for k in 0..40 {
+                    for k in 0..rows {
                         t.insert(k, 1000 + k).unwrap();
                         spec.entry(*tb).or_default().insert(k, 1000 + k);
                     }
@@ -525,6 +737,481 @@ fn execute(sc: &Scenario, ctl: &Arc<Controller>) -> Outcome {
         tx.commit().unwrap();
     }
     hist.tables = hist.pspec.keys().copied().collect();
+    Setup { file, db, all_tables, spec, mspec, pre_sp, hist }
+}
+
+// ------------------------------------------------------------------------------------------------------------------
+// contention families: telling a thread that BLOCKS on a mutex from one that is still running
+
+/// the OS threads behind the logical threads (workers are named lt<i>)
+pub struct OsThreads {
+    tids: Vec<u32>,
+}
+
+impl OsThreads {
+    fn find(n: usize) -> OsThreads {
+        for _ in 0..200 {
+            let mut tids = vec![0u32; n];
+            if let Ok(rd) = std::fs::read_dir("/proc/self/task") {
+                for e in rd.flatten() {
+                    let comm = std::fs::read_to_string(e.path().join("comm")).unwrap_or_default();
+                    if let Some(i) = comm.trim().strip_prefix("lt").and_then(|x| x.parse::<usize>().ok()) {
+                        if i < n {
+                            tids[i] = e.file_name().to_string_lossy().parse().unwrap_or(0);
+                        }
+                    }
+                }
+            }
+            if tids.iter().all(|t| *t != 0) {
+                return OsThreads { tids };
+            }
+            std::thread::sleep(std::time::Duration::from_millis(5));
+        }
+        panic!("the worker threads lt0..lt{} are not visible under /proc/self/task", n - 1);
+    }
+
+    /// (scheduler state of the thread, voluntary + involuntary context switches so far)
+    fn sample(&self, t: usize) -> Option<(char, u64)> {
+        let st = std::fs::read_to_string(format!("/proc/self/task/{}/status", self.tids[t])).ok()?;
+        let mut state = None;
+        let mut sw = 0u64;
+        for l in st.lines() {
+            if let Some(r) = l.strip_prefix("State:") {
+                state = r.trim().chars().next();
+            } else if let Some(r) = l.strip_prefix("voluntary_ctxt_switches:").or_else(|| l.strip_prefix("nonvoluntary_ctxt_switches:")) {
+                sw += r.trim().parse::<u64>().unwrap_or(0);
+            }
+        }
+        state.map(|s| (s, sw))
+    }
+}
+
+enum Granted {
+    Ev(Event),
+    /// the thread sleeps inside redb (on a mutex): it has reported nothing and has been asleep, without ever being
+    /// switched in, over several consecutive looks
+    Blocked,
+}
+
+/// waits until thread `t` reports an event or is seen blocked. A worker reports (under its slot's mutex) BEFORE it goes to
+/// sleep at a pause point or after its call, so a sleeping thread without a report sleeps somewhere else: on a mutex.
+/// Time only paces the polling; what is decided is the state of the thread.
+fn watch(ctl: &Arc<Controller>, os: &OsThreads, t: usize) -> Granted {
+    let begun = std::time::Instant::now();
+    let mut prev: Option<u64> = None;
+    let mut stable = 0;
+    loop {
+        if let Some(e) = ctl.poll_event(t) {
+            return Granted::Ev(e);
+        }
+        let el = begun.elapsed();
+        if el < std::time::Duration::from_micros(400) {
+            std::thread::yield_now();
+            continue;
+        }
+        std::thread::sleep(std::time::Duration::from_micros(400));
+        match os.sample(t) {
+            Some(('S', sw)) => {
+                if prev == Some(sw) {
+                    stable += 1;
+                } else {
+                    prev = Some(sw);
+                    stable = 1;
+                }
+                if stable >= 4 {
+                    return match ctl.poll_event(t) {
+                        Some(e) => Granted::Ev(e),
+                        None => Granted::Blocked,
+                    };
+                }
+            }
+            _ => {
+                prev = None;
+                stable = 0;
+            }
+        }
+        if el > rv_harness::conc::HANG_TIMEOUT {
+            return Granted::Ev(Event::Hung);
+        }
+    }
+}
+
+fn grant_watch(ctl: &Arc<Controller>, os: &OsThreads, t: usize) -> Granted {
+    ctl.grant(t);
+    watch(ctl, os, t)
+}
+
+/// a thread that blocked earlier: its next event if it got the mutex meanwhile, None if it still sleeps
+fn wait_pending(ctl: &Arc<Controller>, os: &OsThreads, t: usize) -> Option<Event> {
+    match watch(ctl, os, t) {
+        Granted::Ev(e) => Some(e),
+        Granted::Blocked => None,
+    }
+}
+
+/// the effect of a table operation on the specification of its table, as the model's effect (1 put a b, 2 delete a, 3 delete
+/// the keys in [a, b), 0 none)
+fn effect_of(kind: OpKind, tb: u64, a: u64, b: u64, spec: &Spec, mspec: &MSpec) -> (u8, u64, u64) {
+    let empty = BTreeMap::new();
+    let m = spec.get(&tb).unwrap_or(&empty);
+    match kind {
+        OpKind::Insert => (1, a, b),
+        OpKind::Remove => (2, a, 0),
+        OpKind::PopFirst => m.keys().next().map(|k| (2, *k, 0)).unwrap_or((0, 0, 0)),
+        OpKind::PopLast => m.keys().next_back().map(|k| (2, *k, 0)).unwrap_or((0, 0, 0)),
+        OpKind::RetainOut | OpKind::ExtractRange => (3, a, b),
+        OpKind::GetMut | OpKind::EntryModify => if m.contains_key(&a) { (1, a, b) } else { (0, 0, 0) },
+        OpKind::EntryOrInsert => if m.contains_key(&a) { (0, 0, 0) } else { (1, a, b) },
+        OpKind::MmInsert => (1, a, b),
+        OpKind::MmRemove => if mspec.get(&tb).and_then(|m| m.get(&a)).map(|s| s.len() == 1 && s.contains(&b)).unwrap_or(false) { (2, a, 0) } else { (0, 0, 0) },
+        OpKind::MmRemoveAll => (2, a, 0),
+    }
+}
+
+fn apply_op(kind: OpKind, tb: u64, a: u64, b: u64, spec: &mut Spec, mspec: &mut MSpec) {
+    if kind.is_mm() {
+        let m = mspec.entry(tb).or_default();
+        match kind {
+            OpKind::MmInsert => {
+                m.entry(a).or_default().insert(b);
+            }
+            OpKind::MmRemove => {
+                if let Some(s) = m.get_mut(&a) {
+                    s.remove(&b);
+                    if s.is_empty() {
+                        m.remove(&a);
+                    }
+                }
+            }
+            _ => {
+                m.remove(&a);
+            }
+        }
+        return;
+    }
+    let (e, x, y) = effect_of(kind, tb, a, b, spec, mspec);
+    let m = spec.entry(tb).or_default();
+    match e {
+        1 => {
+            m.insert(x, y);
+        }
+        2 => {
+            m.remove(&x);
+        }
+        3 => m.retain(|k, _| !(x <= *k && *k < y)),
+        _ => {}
+    }
+}
+
+/// the threads' phase: calls in progress, the specification of each table (its own stream), and what the savepoint
+/// eligibility oracle needs
+struct Phase {
+    in_call: Vec<Option<Call>>,
+    at: Vec<Option<String>>,
+    /// the call in progress as the log names it
+    label_text: Vec<String>,
+    spec: Spec,
+    mspec: MSpec,
+    absent: BTreeSet<u64>,
+    /// grants that ran the section storing the dirty flag (it starts at X.set_dirty, under the tables mutex):
+    /// (log index, thread, did the call succeed)
+    stores: Vec<(usize, usize, Option<bool>)>,
+    /// log index of the grant that ran the dirty check of the savepoint call in progress (it starts at X.esp.locked)
+    check_idx: Vec<Option<usize>>,
+    /// finished savepoint calls: (thread, call, result, log index of its dirty check, when it returned the dirty flag had
+    /// not been stored and no call that stores it -- open / delete of a table -- was in progress on another thread)
+    sp_done: Vec<(usize, Call, String, usize, bool)>,
+    hung: bool,
+}
+
+impl Phase {
+    /// thread `t` was granted the step `label` (log entry `idx`) and reported `e`
+    fn on_event(&mut self, t: usize, label: &str, idx: usize, e: Event, out: &mut Outcome) {
+        if label == "@X.set_dirty" {
+            self.stores.push((idx, t, None));
+        }
+        if label == "@X.esp.locked" {
+            self.check_idx[t] = Some(idx);
+        }
+        match e {
+            Event::At(p) => self.at[t] = Some(p),
+            Event::Done(r) => {
+                let c = self.in_call[t].take().unwrap();
+                self.at[t] = None;
+                if r.starts_with("PANIC") || r.starts_with("ERR") {
+                    out.violations.push(("c16-call-failed".into(), format!("thread {t} {}: {r}", c.describe())));
+                }
+                out.results.push(format!("{t}:{}={r}", self.label_text[t]));
+                for s in self.stores.iter_mut().filter(|s| s.1 == t && s.2.is_none()) {
+                    s.2 = Some(r == "ok");
+                }
+                if let Call::Savepoint(h) = &c {
+                    if r == "dirty" {
+                        self.absent.insert(*h);
+                    }
+                    // a request that is turned away before it reaches its dirty check was decided by this very grant
+                    let ci = self.check_idx[t].take().unwrap_or(idx);
+                    let dirtier_active = (0..self.in_call.len()).any(|u| u != t && matches!(self.in_call[u], Some(Call::Open(_) | Call::Delete(_))));
+                    self.sp_done.push((t, c.clone(), r.clone(), ci, self.stores.is_empty() && !dirtier_active));
+                }
+                // the specification of each table: its own stream
+                match (&c, r.as_str()) {
+                    (Call::Put(tb, k, v), "ok") => {
+                        if is_mm(*tb) {
+                            self.mspec.entry(*tb).or_default().entry(*k).or_default().insert(*v);
+                        } else {
+                            self.spec.entry(*tb).or_default().insert(*k, *v);
+                        }
+                    }
+                    (Call::Del(tb, k), "ok") => {
+                        if is_mm(*tb) {
+                            if let Some(m) = self.mspec.get_mut(tb) {
+                                m.remove(k);
+                            }
+                        } else if let Some(m) = self.spec.get_mut(tb) {
+                            m.remove(k);
+                        }
+                    }
+                    (Call::Open(tb), "ok") => {
+                        if is_mm(*tb) {
+                            self.mspec.entry(*tb).or_default();
+                        } else {
+                            self.spec.entry(*tb).or_default();
+                        }
+                    }
+                    (Call::Op(kind, tb, a, b), "ok") => apply_op(*kind, *tb, *a, *b, &mut self.spec, &mut self.mspec),
+                    (Call::Delete(tb), "ok") => {
+                        self.spec.remove(tb);
+                        self.mspec.remove(tb);
+                    }
+                    _ => {}
+                }
+            }
+            Event::Blocked => {}
+            Event::Hung => {
+                out.violations.push(("c16-hung".into(), format!("thread {t} ({label}): no event after a grant the step model allows")));
+                self.hung = true;
+            }
+        }
+    }
+
+    /// savepoint eligibility is a function of the transaction's dirtiness only. The dirty flag is stored and checked under
+    /// the tables mutex. A request that returns InvalidSavepoint while the flag has never been stored and no call that
+    /// stores it (open / delete of a table) is even in progress on another thread was refused on a CLEAN transaction; a
+    /// request whose check ran after the store of a call that succeeded must be refused.
+    fn eligibility(&self, out: &mut Outcome) {
+        for (t, c, r, ci, clean_at_return) in &self.sp_done {
+            if r == "dirty" && *clean_at_return {
+                out.violations.push(("c16-savepoint-eligibility".into(), format!(
+                    "thread {t}: {} was refused with InvalidSavepoint (log entry {ci}) on a CLEAN transaction: up to then no table had been opened, renamed or deleted, no such call was in progress on another thread, and no savepoint had been restored{}",
+                    c.describe(),
+                    if self.stores.is_empty() { " -- the transaction stayed clean to its end".to_string() } else { format!(" (the dirty flag is first stored at log entry {})", self.stores[0].0) })));
+            }
+            let before: Vec<&(usize, usize, Option<bool>)> = self.stores.iter().filter(|s| s.0 < *ci).collect();
+            if before.iter().any(|s| s.2 == Some(true)) && r == "ok" {
+                out.violations.push(("c16-savepoint-eligibility".into(), format!(
+                    "thread {t}: {} succeeded (dirty check at log entry {ci}) although a table had been opened or deleted before it (dirty flag stored at log entry {})",
+                    c.describe(), before[0].0)));
+            }
+        }
+    }
+}
+
+/// what the reference run (the same programs, one thread after the other, on an identical image) gives
+pub struct RefOut {
+    /// every call in the form the log names it: table operations with their effect on the table's contents and the
+    /// sizes of their freed_pages sections (m<r> = pages replaced through the scratch list and merged, b<n> = pages pushed
+    /// under the mutex)
+    calls: Vec<Vec<String>>,
+    /// committed pages of each table before the shared transaction (0: the catalog)
+    committed: BTreeMap<u64, usize>,
+    rows: BTreeMap<u64, usize>,
+    freed_len: Option<usize>,
+    contents: Result<(Spec, MSpec), String>,
+    allocated: usize,
+    table_pages: BTreeMap<String, usize>,
+}
+
+fn table_id(name: &str) -> Option<u64> {
+    name.strip_prefix('t').and_then(|x| x.parse().ok())
+}
+
+/// (allocated order-0 pages, pages of each table and of the catalog) of the latest committed state
+fn page_counts(db: &Database) -> Result<(usize, BTreeMap<String, usize>), String> {
+    let snap = db.verif_snapshot();
+    let latest = snap.mem.latest().clone();
+    let reach = rv_harness::catch(|| db.verif_reach(latest.data_root, None)).map_err(|p| format!("reach panicked: {p}"))?.map_err(|e| format!("reach: {e}"))?;
+    let mut m = BTreeMap::new();
+    m.insert("catalog".to_string(), reach.data_master_pages.iter().map(|p| p.order0_range().len()).sum());
+    for t in &reach.data_tables {
+        m.insert(t.name.clone(), t.pages.iter().map(|p| p.order0_range().len()).sum());
+    }
+    Ok((snap.mem.allocated_order0().len(), m))
+}
+
+const PRE_POINTS: &[&str] = &["F.merge", "F.get_mut", "F.mmvalue_drop", "F.mmremove", "F.drain", "F.delete_table"];
+
+fn reference(sc: &Scenario, ctl: &Arc<Controller>) -> Result<RefOut, String> {
+    let Setup { db, mut spec, mut mspec, mut pre_sp, hist, .. } = setup(sc);
+    let mut committed = BTreeMap::new();
+    let mut rows = BTreeMap::new();
+    {
+        let snap = db.verif_snapshot();
+        let reach = db.verif_reach(snap.mem.latest().data_root, None).map_err(|e| format!("reach: {e}"))?;
+        committed.insert(0u64, reach.data_master_pages.len());
+        for t in &reach.data_tables {
+            if let Some(id) = table_id(&t.name) {
+                committed.insert(id, t.pages.len());
+                rows.insert(id, spec.get(&id).map(|m| m.len()).unwrap_or(0));
+            }
+        }
+    }
+    let tx = db.begin_write().map_err(|e| format!("begin_write: {e}"))?;
+    let txp: *const WriteTransaction = Box::into_raw(Box::new(tx));
+    let sh = Arc::new(Shared { tx: txp, savepoints: Mutex::new(BTreeMap::new()), persistent: Mutex::new(BTreeMap::new()) });
+    if let Some(sp) = pre_sp.take() {
+        sh.savepoints.lock().unwrap().insert(900, sp);
+    }
+    let mut alpha: Vec<&str> = ALPHABET.to_vec();
+    alpha.extend_from_slice(CTN_EXTRA);
+    ctl.set_blocking(&alpha);
+    let mut calls: Vec<Vec<String>> = vec![];
+    let mut absent: BTreeSet<u64> = BTreeSet::new();
+    let mut failed: Option<String> = None;
+    'outer: for prog in &sc.progs {
+        let mut texts = vec![];
+        for call in prog {
+            if let Call::DropSavepoint(h) = call {
+                if absent.contains(h) {
+                    texts.push(call.text());
+                    continue;
+                }
+            }
+            let len0 = sh.tx().verif_locks().3;
+            // delete_table keeps the tables mutex: what it frees is told apart from the catalog pages it replaces by the
+            // table's own committed pages
+            let own_committed: usize = if let Call::Delete(tb) = call {
+                let snap = sh.tx().verif_snapshot();
+                let fresh: BTreeSet<(u32, u32, u8)> = snap.allocated_since_commit.iter().map(|p| (p.region, p.index, p.order)).collect();
+                let reach = sh.tx().verif_reach_current().map_err(|e| format!("reach: {e}"))?;
+                reach.data_tables.iter().find(|t| t.name == tname(*tb)).map(|t| t.pages.iter().filter(|p| !fresh.contains(&(p.region, p.index, p.order))).count()).unwrap_or(0)
+            } else {
+                0
+            };
+            ctl.submit(0, job(sh.clone(), call.clone()));
+            let mut secs: Vec<(char, usize)> = vec![];
+            let mut open: Option<char> = None;
+            let mut last = len0;
+            let mut saw_merge = false;
+            let res;
+            loop {
+                match ctl.step(0) {
+                    Event::At(p) => {
+                        if PRE_POINTS.contains(&p.as_str()) {
+                            saw_merge |= p == "F.merge";
+                            if let (Some(l), Some(l0)) = (sh.tx().verif_locks().3, last) {
+                                if let Some(k) = open.take() {
+                                    secs.push((k, l - l0));
+                                }
+                                last = Some(l);
+                            }
+                            if open.is_none() {
+                                open = Some(if p == "F.merge" { 'm' } else { 'b' });
+                            }
+                        }
+                    }
+                    Event::Done(r) => {
+                        res = r;
+                        break;
+                    }
+                    e => {
+                        failed = Some(format!("reference run: {} gave {e:?}", call.describe()));
+                        break 'outer;
+                    }
+                }
+            }
+            let lend = sh.tx().verif_locks().3;
+            if let (Some(l), Some(l0)) = (lend, last) {
+                if let Some(k) = open.take() {
+                    secs.push((k, l - l0));
+                }
+            }
+            if res.starts_with("ERR") || res.starts_with("PANIC") {
+                failed = Some(format!("reference run: {} gave {res}", call.describe()));
+                break 'outer;
+            }
+            let secs_text = |secs: &Vec<(char, usize)>| if secs.is_empty() { "-".to_string() } else { secs.iter().map(|(k, n)| format!("{k}{n}")).collect::<Vec<_>>().join("_") };
+            match call {
+                Call::Op(kind, tb, a, b) => {
+                    let (e, x, y) = effect_of(*kind, *tb, *a, *b, &spec, &mspec);
+                    apply_op(*kind, *tb, *a, *b, &mut spec, &mut mspec);
+                    texts.push(format!("X{tb}.{e}.{x}.{y}.{}", secs_text(&secs)));
+                }
+                Call::Delete(tb) => {
+                    spec.remove(tb);
+                    mspec.remove(tb);
+                    let total = match (lend, len0) { (Some(l), Some(l0)) => l - l0, _ => 0 };
+                    let own = own_committed.min(total);
+                    texts.push(format!("L{tb}.{}.{own}", if saw_merge { total - own } else { 0 }));
+                }
+                Call::Hold(k, _) => texts.push(format!("H{}", k.code())),
+                Call::Savepoint(h) => {
+                    if res == "dirty" {
+                        absent.insert(*h);
+                    }
+                    texts.push(call.text());
+                }
+                Call::Put(tb, k, v) => {
+                    if is_mm(*tb) {
+                        mspec.entry(*tb).or_default().entry(*k).or_default().insert(*v);
+                    } else {
+                        spec.entry(*tb).or_default().insert(*k, *v);
+                    }
+                    texts.push(call.text());
+                }
+                Call::Del(tb, k) => {
+                    if is_mm(*tb) {
+                        if let Some(m) = mspec.get_mut(tb) {
+                            m.remove(k);
+                        }
+                    } else if let Some(m) = spec.get_mut(tb) {
+                        m.remove(k);
+                    }
+                    texts.push(call.text());
+                }
+                _ => texts.push(call.text()),
+            }
+        }
+        calls.push(texts);
+    }
+    let freed_len = sh.tx().verif_locks().3;
+    let mut tx = unsafe { *Box::from_raw(txp as *mut WriteTransaction) };
+    if let Some(f) = failed {
+        let _ = tx.abort();
+        return Err(f);
+    }
+    let ended: Result<(), String> = rv_harness::catch(|| match sc.end {
+        0 => tx.commit().map_err(|e| format!("commit: {e}")),
+        1 => {
+            tx.set_durability(Durability::None).map_err(|e| format!("{e}"))?;
+            tx.commit().map_err(|e| format!("commit: {e}"))
+        }
+        _ => tx.abort().map_err(|e| format!("abort: {e}")),
+    })
+    .unwrap_or_else(|p| Err(format!("panic: {p}")));
+    ended.map_err(|e| format!("reference run: {e}"))?;
+    let all: BTreeSet<u64> = tables_of(sc);
+    let contents = read_all(&db, &all);
+    let (allocated, table_pages) = page_counts(&db)?;
+    sh.savepoints.lock().unwrap().clear();
+    drop(hist);
+    Ok(RefOut { calls, committed, rows, freed_len, contents, allocated, table_pages })
+}
+
+fn execute(sc: &Scenario, ctl: &Arc<Controller>, os: &OsThreads, reference: Option<&RefOut>) -> Outcome {
+    let mut out = Outcome { log: vec![], results: vec![], tracking: String::new(), dirty: false, violations: vec![], interleaved: false, digests: vec![], cg_case: None, cg_impl: None, freed_len: None, blocked_grants: 0 };
+    let Setup { file, db, all_tables, spec, mspec, mut pre_sp, hist } = setup(sc);
+    let _ = &file;
     let base_spec = spec.clone();
     let base_mspec = mspec.clone();
     let tx = db.begin_write().unwrap();
@@ -536,39 +1223,61 @@ fn execute(sc: &Scenario, ctl: &Arc<Controller>) -> Outcome {
     // ---------------- the threads' phase
     let n = sc.nthreads;
     let mut pc = vec![0usize; n];
-    let mut in_call: Vec<Option<Call>> = vec![None; n];
-    let mut at: Vec<Option<String>> = vec![None; n];
+    let mut ph = Phase { in_call: vec![None; n], at: vec![None; n], label_text: vec![String::new(); n], spec, mspec, absent: BTreeSet::new(),
+                         stores: vec![], check_idx: vec![None; n], sp_done: vec![], hung: false };
     let mut rng = Rng::new(sc.sched_seed);
     let mut last: Option<usize> = None;
     let mut window = sc.window;
     let mut grants_of_a = 0usize;
-    let mut hung = false;
-    let mut absent: BTreeSet<u64> = BTreeSet::new();
+    // threads that were granted a step which needs a mutex a stopped thread holds: they sleep inside redb until it is released
+    let mut pending: Vec<Option<String>> = vec![None; n];
     loop {
-        let locked = sh.tx().verif_tables_locked();
+        let (locked, flags) = if sc.contend {
+            let (t, f, s, _) = sh.tx().verif_locks();
+            (t, format!("{}{}{}", u8::from(t), match f { Some(true) => '1', Some(false) => '0', None => '?' }, u8::from(s)))
+        } else {
+            let t = sh.tx().verif_tables_locked();
+            (t, format!("{}", u8::from(t)))
+        };
+        let syslocked = !sc.contend && sh.tx().verif_locks().2;
         // a Savepoint that was refused (dirty transaction) leaves nothing to drop: such drops are not calls at all
         for t in 0..n {
-            while in_call[t].is_none() && pc[t] < sc.progs[t].len() {
+            while ph.in_call[t].is_none() && pc[t] < sc.progs[t].len() {
                 match &sc.progs[t][pc[t]] {
-                    Call::DropSavepoint(h) if absent.contains(h) => pc[t] += 1,
+                    Call::DropSavepoint(h) if ph.absent.contains(h) => pc[t] += 1,
                     _ => break,
                 }
             }
         }
-        // who can be granted now (the step model's enabledness)
+        // who can be granted now (the step model's enabledness; contention families: a step that needs a held mutex may be
+        // granted too -- the thread must block --, but while a thread is blocked only threads inside a call run on, so that
+        // one thread at a time waits for a mutex and the order in which waiters get it is not left to the OS)
         let mut enabled = vec![];
         for t in 0..n {
-            let runnable = match (&in_call[t], &at[t]) {
-                (None, _) => pc[t] < sc.progs[t].len() && !(locked && sc.progs[t][pc[t]].needs_mutex_at_entry()),
-                (Some(_), Some(p)) => !(locked && p == "X.esp"),
+            if pending[t].is_some() {
+                continue;
+            }
+            let runnable = match (&ph.in_call[t], &ph.at[t]) {
+                (None, _) => pc[t] < sc.progs[t].len() && (sc.contend || !(locked && sc.progs[t][pc[t]].needs_mutex_at_entry())),
+                (Some(_), Some(p)) => sc.contend || !((locked && p == "X.esp") || (syslocked && p == "X.psp.system")),
                 (Some(_), None) => true,
             };
             if runnable {
                 enabled.push(t);
             }
         }
+        if pending.iter().any(|p| p.is_some()) {
+            let mid: Vec<usize> = enabled.iter().copied().filter(|t| ph.in_call[*t].is_some()).collect();
+            if !mid.is_empty() {
+                enabled = mid;
+            }
+        }
         if enabled.is_empty() {
-            if (0..n).any(|t| in_call[t].is_some() || pc[t] < sc.progs[t].len()) {
+            if pending.iter().any(|p| p.is_some()) {
+                let who: Vec<String> = (0..n).filter(|t| pending[*t].is_some()).map(|t| format!("thread {t} in {}", ph.in_call[t].as_ref().map(|c| c.describe()).unwrap_or_default())).collect();
+                out.violations.push(("c16-deadlock".into(), format!("{} blocked on a mutex of the shared transaction and no other thread can run", who.join(", "))));
+                ph.hung = true;
+            } else if (0..n).any(|t| ph.in_call[t].is_some() || pc[t] < sc.progs[t].len()) {
                 out.violations.push(("c16-deadlock".into(), "no thread can be granted although work remains (tables mutex held by nobody who can run)".into()));
             }
             break;
@@ -579,12 +1288,17 @@ fn execute(sc: &Scenario, ctl: &Arc<Controller>) -> Outcome {
             _ if sc.park.is_some() => {
                 let (a, k) = sc.park.unwrap();
                 let rest: Vec<usize> = enabled.iter().copied().filter(|t| *t != a).collect();
-                if (grants_of_a < k || others_done(a, &in_call, &pc) || rest.is_empty()) && enabled.contains(&a) {
+                // the call a is in (or None between calls); the parked thread runs alone up to the call it is stopped in
+                let cur_call = if ph.in_call[a].is_some() { Some(pc[a] - 1) } else { None };
+                let before_target = match cur_call { Some(c) => c < sc.park_call, None => pc[a] < sc.park_call };
+                if before_target && enabled.contains(&a) {
+                    a
+                } else if (grants_of_a < k || others_done(a, &ph.in_call, &pc) || rest.is_empty()) && enabled.contains(&a) {
                     grants_of_a += 1;
                     a
                 } else if rest.is_empty() {
                     *rng.pick(&enabled)
-                } else if let Some(l) = last.filter(|l| rest.contains(l) && in_call[*l].is_some()) {
+                } else if let Some(l) = last.filter(|l| rest.contains(l) && ph.in_call[*l].is_some()) {
                     // the others run their calls one after the other (whole calls, random order)
                     l
                 } else {
@@ -594,9 +1308,9 @@ fn execute(sc: &Scenario, ctl: &Arc<Controller>) -> Outcome {
             Some((a, k, b)) => {
                 if grants_of_a < k && enabled.contains(&a) {
                     a
-                } else if enabled.contains(&b) && (in_call[b].is_some() || pc[b] < sc.progs[b].len()) && grants_of_a >= k {
+                } else if enabled.contains(&b) && (ph.in_call[b].is_some() || pc[b] < sc.progs[b].len()) && grants_of_a >= k {
                     // b runs one whole call (or as far as it can), then the window is over
-                    if in_call[b].is_none() && pc[b] > 0 && last == Some(b) {
+                    if ph.in_call[b].is_none() && pc[b] > 0 && last == Some(b) {
                         window = None;
                         *rng.pick(&enabled)
                     } else {
@@ -622,74 +1336,65 @@ fn execute(sc: &Scenario, ctl: &Arc<Controller>) -> Outcome {
             }
         }
         if let Some(l) = last {
-            if l != t && in_call[l].is_some() {
+            if l != t && ph.in_call[l].is_some() {
                 out.interleaved = true;
             }
         }
         last = Some(t);
         let label;
-        if in_call[t].is_none() {
+        if ph.in_call[t].is_none() {
             let call = sc.progs[t][pc[t]].clone();
+            // contention families: the model's form of the call (its effect on the table's contents and the sizes of its
+            // freed_pages sections) was measured by the reference run
+            let text = reference.map(|r| r.calls[t][pc[t]].clone()).unwrap_or_else(|| call.text());
             pc[t] += 1;
-            label = format!("E{}", call.text());
+            label = format!("E{text}");
             ctl.submit(t, job(sh.clone(), call.clone()));
-            in_call[t] = Some(call);
-            at[t] = None;
+            ph.in_call[t] = Some(call);
+            ph.label_text[t] = text;
+            ph.at[t] = None;
         } else {
-            label = format!("@{}", at[t].clone().unwrap());
+            label = format!("@{}", ph.at[t].clone().unwrap());
         }
-        out.log.push(format!("{t}:{label}:{}", u8::from(locked)));
-        match ctl.step(t) {
-            Event::At(p) => at[t] = Some(p),
-            Event::Done(r) => {
-                let c = in_call[t].take().unwrap();
-                at[t] = None;
-                if r.starts_with("PANIC") || r.starts_with("ERR") {
-                    out.violations.push(("c16-call-failed".into(), format!("thread {t} {}: {r}", c.text())));
-                }
-                out.results.push(format!("{t}:{}={r}", c.text()));
-                if let (Call::Savepoint(h), "dirty") = (&c, r.as_str()) {
-                    absent.insert(*h);
-                }
-                // the specification of each table: its own stream
-                match (&c, r.as_str()) {
-                    (Call::Put(tb, k, v), "ok") => {
-                        if is_mm(*tb) {
-                            mspec.entry(*tb).or_default().entry(*k).or_default().insert(*v);
-                        } else {
-                            spec.entry(*tb).or_default().insert(*k, *v);
-                        }
-                    }
-                    (Call::Del(tb, k), "ok") => {
-                        if is_mm(*tb) {
-                            if let Some(m) = mspec.get_mut(tb) {
-                                m.remove(k);
-                            }
-                        } else if let Some(m) = spec.get_mut(tb) {
-                            m.remove(k);
-                        }
-                    }
-                    (Call::Open(tb), "ok") => {
-                        if is_mm(*tb) {
-                            mspec.entry(*tb).or_default();
-                        } else {
-                            spec.entry(*tb).or_default();
-                        }
-                    }
-                    _ => {}
-                }
+        // somebody else is inside a call (stopped at a pause point, possibly inside a lock-protected section)?
+        let watch = sc.contend && (0..n).any(|u| u != t && ph.in_call[u].is_some());
+        let granted = if watch { grant_watch(ctl, os, t) } else { Granted::Ev(ctl.step(t)) };
+        match granted {
+            Granted::Blocked => {
+                out.log.push(format!("{t}:{label}:B"));
+                out.blocked_grants += 1;
+                pending[t] = Some(label);
             }
-            Event::Blocked => {}
-            Event::Hung => {
-                out.violations.push(("c16-hung".into(), format!("thread {t} ({label}): no event after a grant the step model allows")));
-                hung = true;
+            Granted::Ev(e) => {
+                out.log.push(format!("{t}:{label}:{flags}"));
+                let idx = out.log.len() - 1;
+                ph.on_event(t, &label, idx, e, &mut out);
+            }
+        }
+        // whoever slept on a mutex and got it now has run on to its next stop
+        for u in 0..n {
+            if ph.hung {
                 break;
             }
+            if let Some(l) = pending[u].clone() {
+                if let Some(e) = wait_pending(ctl, os, u) {
+                    pending[u] = None;
+                    out.log.push(format!("{u}:{l}:W"));
+                    let idx = out.log.len() - 1;
+                    ph.on_event(u, &l, idx, e, &mut out);
+                }
+            }
+        }
+        if ph.hung {
+            break;
         }
     }
-    if hung {
+    if ph.hung {
         return out;
     }
+    ph.eligibility(&mut out);
+    let Phase { spec, mspec, .. } = ph;
+    out.freed_len = sh.tx().verif_locks().3;
     // ---------------- state of the shared transaction before it ends (H3)
     let snap = sh.tx().verif_snapshot();
     out.tracking = format!("{:?}", snap.page_tracker.state);
@@ -794,7 +1499,7 @@ fn execute(sc: &Scenario, ctl: &Arc<Controller>) -> Outcome {
             }
             (Err(e), _) | (_, Err(e)) => out.violations.push(("c16-snapshot-failed".into(), format!("commit gap: {e}"))),
         }
-        return finish_checks(sc, db, sh, out, all_tables, spec, mspec, base_spec, base_mspec, hist);
+        return finish_checks(sc, db, sh, out, all_tables, spec, mspec, base_spec, base_mspec, hist, reference);
     }
     let ended: Result<(), String> = rv_harness::catch(|| match sc.end {
         0 => tx.commit().map_err(|e| format!("commit: {e}")),
@@ -809,7 +1514,7 @@ fn execute(sc: &Scenario, ctl: &Arc<Controller>) -> Outcome {
         out.violations.push(("c16-end-failed".into(), e));
         return out;
     }
-    finish_checks(sc, db, sh, out, all_tables, spec, mspec, base_spec, base_mspec, hist)
+    finish_checks(sc, db, sh, out, all_tables, spec, mspec, base_spec, base_mspec, hist, reference)
 }
 
 /// Persistent savepoints created by the threads of the shared transaction: distinct ids, listed (or, after an abort,
@@ -894,13 +1599,51 @@ fn persistent_checks(sc: &Scenario, slot: &mut Option<Database>, file: &Arc<MemF
 
 #[allow(clippy::too_many_arguments)]
 fn finish_checks(sc: &Scenario, mut db: Database, sh: Arc<Shared>, mut out: Outcome, all_tables: BTreeSet<u64>, spec: Spec, mspec: MSpec,
-                 base_spec: Spec, base_mspec: MSpec, mut hist: Hist) -> Outcome {
+                 base_spec: Spec, base_mspec: MSpec, mut hist: Hist, reference: Option<&RefOut>) -> Outcome {
     let endname = ["commit", "non-durable commit", "abort"][sc.end as usize];
     // ---------------- right after the end of the shared transaction, everything that pins pages still live
     match rv_harness::catch(|| accounting(&db)) {
         Ok(Ok(())) => {}
         Ok(Err(e)) => out.violations.push(("c16-accounting".into(), format!("right after the {endname} (live: {} read transaction(s), {} savepoint(s)): {e}", hist.readers.len(), sh.savepoints.lock().unwrap().len()))),
         Err(p) => out.violations.push(("c16-accounting".into(), format!("right after the {endname}: walking the committed state panicked: {p}"))),
+    }
+    // ---------------- the same operations applied one thread after the other on an identical image
+    if let Some(r) = reference {
+        let mut diffs: Vec<String> = vec![];
+        if let (Some(a), Some(b)) = (out.freed_len, r.freed_len) {
+            if a != b {
+                diffs.push(format!("the transaction recorded {a} replaced page(s) as freed, the one-thread run {b}"));
+            }
+        }
+        match (read_all(&db, &all_tables), &r.contents) {
+            (Ok(a), Ok(b)) => {
+                if a != *b {
+                    let tb = all_tables.iter().find(|t| a.0.get(t) != b.0.get(t) || a.1.get(t) != b.1.get(t));
+                    diffs.push(format!("the contents of table {tb:?} differ from the one-thread run"));
+                }
+            }
+            (Err(e), _) => diffs.push(format!("reading back failed: {e}")),
+            (_, Err(e)) => diffs.push(format!("reading back the one-thread run failed: {e}")),
+        }
+        match rv_harness::catch(|| page_counts(&db)) {
+            Ok(Ok((alloc, pages))) => {
+                for (name, n) in &pages {
+                    if r.table_pages.get(name) != Some(n) {
+                        diffs.push(format!("{name} has {n} page(s), in the one-thread run {:?}", r.table_pages.get(name)));
+                    }
+                }
+                // system pages depend on the savepoints that exist; without savepoint calls the totals must agree
+                let no_savepoints = !sc.pre_savepoint && !sc.progs.iter().flatten().any(|c| matches!(c, Call::Savepoint(_)));
+                if no_savepoints && alloc != r.allocated {
+                    diffs.push(format!("{alloc} pages are allocated, after the one-thread run {}", r.allocated));
+                }
+            }
+            Ok(Err(e)) => diffs.push(e),
+            Err(p) => diffs.push(format!("walking the committed state panicked: {p}")),
+        }
+        if !diffs.is_empty() {
+            out.violations.push(("c16-sequential-equality".into(), format!("after the {endname} the shared transaction differs from the same operations applied one thread after the other on an identical image: {}", diffs.join("; "))));
+        }
     }
     // every read transaction begun during the history still sees exactly its snapshot
     let with_hist: BTreeSet<u64> = all_tables.union(&hist.tables).copied().collect();
@@ -1177,7 +1920,7 @@ fn gen_scenarios(rng: &mut Rng, thorough: bool) -> Vec<Scenario> {
                     push(
                         Scenario { id: 0, kind: format!("cgapr-sp{pre_at}-r{}-g{g}", rs.iter().map(|x| x.to_string()).collect::<Vec<_>>().join("")), nthreads: 2, progs,
                                    pre_savepoint: true, end: 0, cache: caches[g % 3], sched_seed: rng.next_u64(), window: None, commit_gap: Some(g),
-                                   prelude, pre_at, readers: rs.to_vec(), park: None, drop_split: None },
+                                   prelude, pre_at, readers: rs.to_vec(), park: None, drop_split: None, ..Default::default() },
                         &mut v,
                     );
                 }
@@ -1198,7 +1941,7 @@ fn gen_scenarios(rng: &mut Rng, thorough: bool) -> Vec<Scenario> {
                         push(
                             Scenario { id: 0, kind: format!("cgaps-sp{pre_at}-r{}-g{g}-d{d}-k{k}", rs.iter().map(|x| x.to_string()).collect::<Vec<_>>().join("")),
                                        nthreads: 2, progs, pre_savepoint: true, end: 0, cache: caches[g % 3], sched_seed: rng.next_u64(), window: None,
-                                       commit_gap: Some(g), prelude, pre_at, readers: rs.to_vec(), park: None, drop_split: Some((d, k)) },
+                                       commit_gap: Some(g), prelude, pre_at, readers: rs.to_vec(), park: None, drop_split: Some((d, k)), ..Default::default() },
                             &mut v,
                         );
                     }
@@ -1249,7 +1992,7 @@ fn gen_scenarios(rng: &mut Rng, thorough: bool) -> Vec<Scenario> {
             Scenario { id: 0, kind: format!("hist-{nt}-p{}-sp{}-r{}-{}", prelude.len(), if pre { pre_at.to_string() } else { "x".into() },
                                             readers.iter().map(|x| x.to_string()).collect::<Vec<_>>().join(""), gap.map(|g| format!("g{g}")).unwrap_or_else(|| format!("e{end}"))),
                        nthreads: nt, progs, pre_savepoint: pre, end, cache: caches[i % 3], sched_seed: rng.next_u64(),
-                       window: if gap.is_some() { Some((nt - 1, 30, 0)) } else { None }, commit_gap: gap, prelude, pre_at, readers, park: None, drop_split: None },
+                       window: if gap.is_some() { Some((nt - 1, 30, 0)) } else { None }, commit_gap: gap, prelude, pre_at, readers, park: None, drop_split: None, ..Default::default() },
             &mut v,
         );
     }
@@ -1266,7 +2009,7 @@ fn gen_scenarios(rng: &mut Rng, thorough: bool) -> Vec<Scenario> {
                     push(
                         Scenario { id: 0, kind: format!("psp-park-n{nsp}-a{a}-k{k}-e{end}"), nthreads: nsp, progs, pre_savepoint: (a + k) % 3 == 0, end,
                                    cache: caches[(a + k) % 3], sched_seed: rng.next_u64(), window: None, commit_gap: None, prelude: vec![], pre_at: usize::MAX,
-                                   readers: vec![], park: Some((a, k)), drop_split: None },
+                                   readers: vec![], park: Some((a, k)), drop_split: None, ..Default::default() },
                         &mut v,
                     );
                 }
@@ -1307,11 +2050,214 @@ fn gen_scenarios(rng: &mut Rng, thorough: bool) -> Vec<Scenario> {
         push(
             Scenario { id: 0, kind: format!("psp-rand-{nt}{}", if with_tables { "-tables" } else { "" }), nthreads: nt, progs, pre_savepoint: rng.chance(1, 4),
                        end: if i % 5 == 4 { 2 } else { 0 }, cache: caches[i % 3], sched_seed: rng.next_u64(), window: None, commit_gap: None,
-                       pre_at: rng.below(np as u64 + 1) as usize, readers: if rng.chance(1, 3) { vec![np] } else { vec![] }, prelude, park: None, drop_split: None },
+                       pre_at: rng.below(np as u64 + 1) as usize, readers: if rng.chance(1, 3) { vec![np] } else { vec![] }, prelude, park: None, drop_split: None, ..Default::default() },
             &mut v,
         );
     }
+    gen_contention(rng, thorough, &mut v);
     v
+}
+
+/// CONTENTION families: one thread is stopped INSIDE (or right before) a lock-protected section of the shared transaction's
+/// state -- freed_pages (get_mut / entry / extract_if / multimap remove / MultimapValue::drop / delete_table), tables
+/// (open_table, list_tables, list_multimap_tables, stats, a failing open_table, ephemeral_savepoint, delete_table), system_tables
+/// (persistent_savepoint, stats, list_persistent_savepoints) -- while the other threads run complete calls; a thread that needs
+/// the held mutex must block until the holder has left the section. Every table exists beforehand.
+fn gen_contention(rng: &mut Rng, thorough: bool, v: &mut Vec<Scenario>) {
+    let push = |s: Scenario, v: &mut Vec<Scenario>| {
+        let mut s = s;
+        s.id = v.len();
+        v.push(s);
+    };
+    // thread t works on the normal table 10(t+1) and the multimap table 100 + 10(t+1); tables 70.. / 170.. are only deleted
+    // or opened with the wrong type
+    let nt = |t: usize| 10 * (t as u64 + 1);
+    let mt = |t: usize| 100 + 10 * (t as u64 + 1);
+    let op = |rng: &mut Rng, kind: OpKind, t: usize, rows: u64| -> Vec<Call> {
+        let tb = if kind.is_mm() { mt(t) } else { nt(t) };
+        let (a, b) = match kind {
+            OpKind::RetainOut | OpKind::ExtractRange => {
+                let a = rng.below(rows);
+                (a, a + 1 + rng.below(40))
+            }
+            OpKind::MmInsert => (rng.below(8), 5000 + rng.below(1000)),
+            OpKind::MmRemove => {
+                let k = [0u64, 3, 1][rng.below(3) as usize];
+                (k, if k == 1 { 2 } else { 100 + rng.below(rows / 2) })
+            }
+            OpKind::MmRemoveAll => ([0u64, 3, 2][rng.below(3) as usize], 0),
+            _ => (rng.below(rows + 10), 7000 + rng.below(1000)),
+        };
+        vec![Call::Open(tb), Call::Op(kind, tb, a, b), Call::Close(tb)]
+    };
+    // ---- directed: the holder (thread 0) is stopped after k grants of its call, the victim (thread 1) runs its whole program
+    // (holder program, index of the call it is stopped in, grants)
+    let holders = |rng: &mut Rng, rows: u64| -> Vec<(&'static str, Vec<Call>, usize, usize)> {
+        let mut h: Vec<(&'static str, Vec<Call>, usize, usize)> = vec![];
+        for (name, kind, kmax) in [("getmut", OpKind::GetMut, 5), ("entry", OpKind::EntryModify, 5), ("extract", OpKind::ExtractRange, 5), ("insert", OpKind::Insert, 2),
+                                   ("retain", OpKind::RetainOut, 2), ("mmremove", OpKind::MmRemove, 5), ("mmremoveall", OpKind::MmRemoveAll, 4), ("mminsert", OpKind::MmInsert, 4)] {
+            h.push((name, op(rng, kind, 0, rows), 1, kmax));
+        }
+        h.push(("delete", vec![Call::Delete(70)], 0, 7));
+        h.push(("mmdelete", vec![Call::Delete(170)], 0, 7));
+        h.push(("open", vec![Call::Open(nt(0)), Call::Close(nt(0))], 0, 5));
+        h.push(("list", vec![Call::Hold(HoldKind::ListTables, 0)], 0, 2));
+        h.push(("listmm", vec![Call::Hold(HoldKind::ListMultimap, 0)], 0, 2));
+        h.push(("stats", vec![Call::Hold(HoldKind::Stats, 0)], 0, 4));
+        h.push(("failopen", vec![Call::Hold(HoldKind::FailOpen, 176)], 0, 2));
+        h.push(("listpsp", vec![Call::Hold(HoldKind::ListPsp, 0)], 0, 2));
+        h.push(("esp", vec![Call::Savepoint(1)], 0, 8));
+        h.push(("psp", vec![Call::Savepoint(500)], 0, 11));
+        h
+    };
+    let victims = |rng: &mut Rng, rows: u64| -> Vec<(&'static str, Vec<Call>)> {
+        let mut w: Vec<(&'static str, Vec<Call>)> = vec![];
+        for (name, kind) in [("insert", OpKind::Insert), ("remove", OpKind::Remove), ("popfirst", OpKind::PopFirst), ("poplast", OpKind::PopLast), ("retain", OpKind::RetainOut),
+                             ("getmut", OpKind::GetMut), ("entry", OpKind::EntryModify), ("orinsert", OpKind::EntryOrInsert), ("extract", OpKind::ExtractRange),
+                             ("mminsert", OpKind::MmInsert), ("mmremove", OpKind::MmRemove), ("mmremoveall", OpKind::MmRemoveAll)] {
+            w.push((name, op(rng, kind, 1, rows)));
+        }
+        w.push(("delete", vec![Call::Delete(72)]));
+        w.push(("esp", vec![Call::Savepoint(2)]));
+        w.push(("psp", vec![Call::Savepoint(501)]));
+        w.push(("list", vec![Call::Hold(HoldKind::ListTables, 0)]));
+        w.push(("stats", vec![Call::Hold(HoldKind::Stats, 0)]));
+        w.push(("listpsp", vec![Call::Hold(HoldKind::ListPsp, 0), Call::Savepoint(3)]));
+        w
+    };
+    let mut i = 0usize;
+    for rows in [60u64, 420] {
+        let hs = holders(rng, rows);
+        for (hname, hprog, pcall, kmax) in &hs {
+            for k in 1..=*kmax {
+                let ws = victims(rng, rows);
+                // a clean transaction's tables mutex held by a call that does not dirty it: savepoint requests are always among the victims
+                let clean_holder = matches!(*hname, "list" | "listmm" | "stats" | "failopen" | "esp" | "psp" | "listpsp");
+                for (j, (wname, wprog)) in ws.iter().enumerate() {
+                    let always = (clean_holder && matches!(*wname, "esp" | "psp")) || (!clean_holder && matches!(*wname, "insert" | "remove") && rows == 60);
+                    if !(thorough || always || (i + j + k) % 5 == 0) {
+                        continue;
+                    }
+                    if *hname == "open" && matches!(*wname, "esp" | "psp") && false {
+                        continue;
+                    }
+                    let end = if (i + j) % 9 == 7 { 1 } else if (i + j) % 9 == 8 { 2 } else { 0 };
+                    // a non-durable commit cannot persist a savepoint
+                    let end = if end == 1 && (hprog.iter().chain(wprog.iter()).any(|c| matches!(c, Call::Savepoint(h) if is_persistent(*h)))) { 0 } else { end };
+                    push(
+                        Scenario { kind: format!("ctn-park-{hname}-k{k}-{wname}-r{rows}"), nthreads: 2, progs: vec![hprog.clone(), wprog.clone()], end, cache: 1 << 20,
+                                   sched_seed: rng.next_u64(), pre_at: usize::MAX, park: Some((0, k)), park_call: *pcall, contend: true, all_exist: Some(rows), ..Default::default() },
+                        v,
+                    );
+                }
+                i += 1;
+            }
+        }
+    }
+    // ---- savepoint eligibility: 3-4 threads ask for savepoints / list / stat / fail to open on a CLEAN transaction, one of them
+    // stopped inside its section; sometimes a thread that dirties the transaction (first open, delete)
+    let nsp = if thorough { 900 } else { 110 };
+    for i in 0..nsp {
+        let n = 3 + (i % 2);
+        let mut progs: Vec<Vec<Call>> = vec![];
+        let mut e = 1u64;
+        let mut h = 500u64;
+        let dirtier = if i % 3 == 2 { Some(rng.below(n as u64) as usize) } else { None };
+        for t in 0..n {
+            if dirtier == Some(t) {
+                progs.push(if rng.chance(1, 2) { vec![Call::Open(nt(t)), Call::Close(nt(t))] } else { vec![Call::Delete(70)] });
+                continue;
+            }
+            let mut p = vec![];
+            for _ in 0..rng.range(1, 2) {
+                match rng.below(8) {
+                    0 | 1 => {
+                        p.push(Call::Savepoint(e));
+                        e += 1;
+                    }
+                    2 | 3 => {
+                        p.push(Call::Savepoint(h));
+                        h += 1;
+                    }
+                    4 => p.push(Call::Hold(HoldKind::ListTables, 0)),
+                    5 => p.push(Call::Hold(HoldKind::Stats, 0)),
+                    6 => p.push(Call::Hold(HoldKind::FailOpen, if rng.chance(1, 2) { 176 } else { 76 })),
+                    _ => p.push(Call::Hold(if rng.chance(1, 2) { HoldKind::ListMultimap } else { HoldKind::ListPsp }, 0)),
+                }
+            }
+            progs.push(p);
+        }
+        if !progs.iter().flatten().any(|c| matches!(c, Call::Savepoint(_))) {
+            progs[0].push(Call::Savepoint(e));
+        }
+        // the tables the failing opens / the delete name must exist
+        let park = if i % 4 != 3 { Some((rng.below(n as u64) as usize, 1 + rng.below(6) as usize)) } else { None };
+        push(
+            Scenario { kind: format!("ctn-sp-{n}{}", if dirtier.is_some() { "-dirty" } else { "-clean" }), nthreads: n, progs, end: if i % 7 == 6 { 2 } else { 0 }, cache: 1 << 20,
+                       sched_seed: rng.next_u64(), pre_at: usize::MAX, park, pre_savepoint: i % 5 == 4, contend: true, all_exist: Some(60), ..Default::default() },
+            v,
+        );
+    }
+    // ---- random: 2-3 table threads with operations of every kind, sometimes a savepoint / holder thread; any thread may be
+    // chosen at any stop, also one whose next step needs a held mutex
+    let nrand = if thorough { 1500 } else { 130 };
+    for i in 0..nrand {
+        let ntab = 2 + (i % 2);
+        let rows = [60u64, 150, 420][i % 3];
+        let mut progs: Vec<Vec<Call>> = vec![];
+        for t in 0..ntab {
+            let mut p = vec![];
+            let mm = rng.chance(1, 3);
+            let tb = if mm { mt(t) } else { nt(t) };
+            p.push(Call::Open(tb));
+            for _ in 0..rng.range(2, 5) {
+                let kinds: &[OpKind] = if mm { &[OpKind::MmInsert, OpKind::MmRemove, OpKind::MmRemoveAll] } else { &OpKind::ALL[..9] };
+                let kind = *rng.pick(kinds);
+                let c = op(rng, kind, t, rows);
+                p.push(c[1].clone());
+            }
+            p.push(Call::Close(tb));
+            if rng.chance(1, 6) {
+                p.push(Call::Delete(70 + 2 * t as u64));
+            }
+            progs.push(p);
+        }
+        if rng.chance(1, 2) {
+            let mut p = vec![];
+            for _ in 0..rng.range(1, 3) {
+                match rng.below(5) {
+                    0 => p.push(Call::Savepoint(1 + p.len() as u64)),
+                    1 => p.push(Call::Hold(HoldKind::Stats, 0)),
+                    2 => p.push(Call::Hold(HoldKind::ListTables, 0)),
+                    3 => p.push(Call::Hold(HoldKind::FailOpen, 176)),
+                    _ => p.push(Call::Savepoint(500 + p.len() as u64)),
+                }
+            }
+            progs.push(p);
+        }
+        let n = progs.len();
+        let persistent = progs.iter().flatten().any(|c| matches!(c, Call::Savepoint(h) if is_persistent(*h)));
+        push(
+            Scenario { kind: format!("ctn-rand-{n}-r{rows}"), nthreads: n, progs, end: if i % 6 == 5 && !persistent { 1 } else if i % 11 == 10 { 2 } else { 0 }, cache: [1usize << 20, 0, 2048][i % 3],
+                       sched_seed: rng.next_u64(), pre_at: usize::MAX, pre_savepoint: i % 7 == 3, contend: true, all_exist: Some(rows), ..Default::default() },
+            v,
+        );
+    }
+    // ---- the holder stopped at its k-th backend read (cache size 0): also sections that have no pause point inside
+    let nread = if thorough { 800 } else { 90 };
+    for i in 0..nread {
+        let rows = [60u64, 420][i % 2];
+        let hs = holders(rng, rows);
+        let ws = victims(rng, rows);
+        let (hname, hprog, pcall, _) = rng.pick(&hs).clone();
+        let (wname, wprog) = rng.pick(&ws).clone();
+        let k = 1 + rng.below(14) as usize;
+        push(
+            Scenario { kind: format!("ctn-read-{hname}-k{k}-{wname}-r{rows}"), nthreads: 2, progs: vec![hprog, wprog], end: 0, cache: 0, sched_seed: rng.next_u64(), pre_at: usize::MAX,
+                       park: Some((0, k)), park_call: pcall, contend: true, park_reads: true, all_exist: Some(rows), ..Default::default() },
+            v,
+        );
+    }
 }
 
 fn main() {
@@ -1324,8 +2270,12 @@ fn main() {
     let ctl = Controller::new(4, ALPHABET);
     ctl.install();
     let _w = ctl.spawn_workers();
+    let os = OsThreads::find(4);
     let mut cases = std::io::BufWriter::new(std::fs::File::create("cases.txt").unwrap());
     let mut imp = std::io::BufWriter::new(std::fs::File::create("impl.txt").unwrap());
+    // the contention families' logs (new calls, blocked / woken grants): kept apart from the logs the extracted model replays
+    let mut ccases = std::io::BufWriter::new(std::fs::File::create("ctn_cases.txt").unwrap());
+    let mut cimp = std::io::BufWriter::new(std::fs::File::create("ctn_impl.txt").unwrap());
     let mut orc = std::io::BufWriter::new(std::fs::File::create("oracle.txt").unwrap());
     // what a scenario does outside the shared transaction's thread phase (for replays; cases.txt keeps the model's format)
     let mut hst = std::io::BufWriter::new(std::fs::File::create("history.txt").unwrap());
@@ -1338,26 +2288,70 @@ fn main() {
     let mut trk: BTreeMap<String, usize> = BTreeMap::new();
     let mut refused = 0usize;
     let mut run = 0usize;
+    let mut nblocked = 0usize;
     for sc in &scenarios {
         if only.is_some() && only != Some(sc.id) {
             continue;
         }
+        // development aid: C16_KIND=<prefix> runs the scenarios of one family only
+        if let Ok(k) = std::env::var("C16_KIND") {
+            if !sc.kind.starts_with(&k) {
+                continue;
+            }
+        }
         std::fs::write("current.txt", format!("{}|{}", sc.id, sc.kind)).unwrap();
-        let out = execute(sc, &ctl);
+        // contention families: the programs run one thread after the other on an identical image first
+        let mut ref_failed = None;
+        let refout = if sc.contend {
+            match rv_harness::catch(|| reference(sc, &ctl)).unwrap_or_else(|p| Err(format!("reference run panicked: {p}"))) {
+                Ok(r) => Some(r),
+                Err(e) => {
+                    ref_failed = Some(e);
+                    None
+                }
+            }
+        } else {
+            None
+        };
+        ctl.set_blocking(&alphabet_of(sc));
+        let mut out = if sc.contend && refout.is_none() {
+            Outcome { log: vec![], results: vec![], tracking: String::new(), dirty: false, violations: vec![], interleaved: false, digests: vec![], cg_case: None, cg_impl: None, freed_len: None, blocked_grants: 0 }
+        } else {
+            execute(sc, &ctl, &os, refout.as_ref())
+        };
+        if let Some(e) = ref_failed {
+            out.violations.push(("c16-call-failed".into(), e));
+        }
+        ctl.set_blocking(ALPHABET);
         run += 1;
+        nblocked += out.blocked_grants;
         steps += out.log.len();
         *kinds.entry(sc.kind.split('-').next().unwrap().to_string()).or_default() += 1;
         *trk.entry(out.tracking.clone()).or_default() += 1;
         refused += out.results.iter().filter(|r| r.ends_with("=dirty")).count();
         let progs: Vec<String> = sc.progs.iter().map(|p| p.iter().map(Call::text).collect::<Vec<_>>().join(",")).collect();
-        writeln!(cases, "{}|{}|{}|{}|{}|{}", sc.id, sc.kind, u8::from(sc.pre_savepoint), sc.end, progs.join(";"), out.log.join(" ")).unwrap();
+        match &refout {
+            // the model's initial tables: rows k -> 1000 + k of each normal table, committed pages of every table (0: the catalog)
+            Some(r) => writeln!(ccases, "{}|{}|{}|{}|{}|{}|{}", sc.id, sc.kind, u8::from(sc.pre_savepoint), sc.end, progs.join(";"), out.log.join(" "),
+                                r.committed.iter().map(|(tb, c)| format!("{tb}:{}:{c}", r.rows.get(tb).copied().unwrap_or(0))).collect::<Vec<_>>().join(",")).unwrap(),
+            None if sc.contend => {}
+            None => writeln!(cases, "{}|{}|{}|{}|{}|{}", sc.id, sc.kind, u8::from(sc.pre_savepoint), sc.end, progs.join(";"), out.log.join(" ")).unwrap(),
+        }
         if !sc.prelude.is_empty() || !sc.readers.is_empty() || sc.park.is_some() || sc.commit_gap.is_some() {
             let pre: Vec<String> = sc.prelude.iter().map(|t| format!("{}:{}", if t.nondurable { "N" } else { "D" },
                 t.ops.iter().map(|(tb, k, v)| match v { Some(v) => format!("{tb}.{k}={v}"), None => format!("{tb}.{k}-") }).collect::<Vec<_>>().join(","))).collect();
             writeln!(hst, "{}|older_savepoint_before_transaction={} readers_begun_after_transactions={:?} savepoint_dropped_after_commit_grants={:?} parked_thread_grants={:?}|{}",
                 sc.id, if sc.pre_savepoint { sc.pre_at.min(sc.prelude.len()).to_string() } else { "-".into() }, sc.readers, sc.commit_gap, sc.park, pre.join(" ; ")).unwrap();
         }
-        writeln!(imp, "{}|{}|tracking={} dirty={}|{}", sc.id, out.results.join(" "), out.tracking, u8::from(out.dirty), out.digests.join(" ")).unwrap();
+        let freed = if sc.contend { format!(" freed={}", out.freed_len.map(|n| n.to_string()).unwrap_or_else(|| "?".into())) } else { String::new() };
+        if sc.contend {
+            writeln!(cimp, "{}|{}|tracking={} dirty={}{freed}|{}", sc.id, out.results.join(" "), out.tracking, u8::from(out.dirty), out.digests.join(" ")).unwrap();
+            if refout.is_none() {
+                writeln!(ccases, "{}|{}|{}|{}|{}|{}|", sc.id, sc.kind, u8::from(sc.pre_savepoint), sc.end, progs.join(";"), out.log.join(" ")).unwrap();
+            }
+        } else {
+            writeln!(imp, "{}|{}|tracking={} dirty={}{freed}|{}", sc.id, out.results.join(" "), out.tracking, u8::from(out.dirty), out.digests.join(" ")).unwrap();
+        }
         if let (Some(c), Some(i)) = (&out.cg_case, &out.cg_impl) {
             writeln!(cgc, "{}|{}|{c}", sc.id, sc.kind).unwrap();
             writeln!(cgi, "{}|{i}", sc.id).unwrap();
@@ -1374,15 +2368,17 @@ fn main() {
         }
         cases.flush().unwrap();
         imp.flush().unwrap();
+        ccases.flush().unwrap();
+        cimp.flush().unwrap();
         orc.flush().unwrap();
         hst.flush().unwrap();
-        if out.violations.iter().any(|(k, _)| k == "c16-hung") {
+        if out.violations.iter().any(|(k, _)| k == "c16-hung" || (k == "c16-deadlock" && sc.contend)) {
             break;
         }
     }
     let _ = std::fs::remove_file("current.txt");
     println!(
-        "scenarios={} executed={run} interleaved={nint} distinct_nontrivial={} steps={steps} violations={nviol} refused_savepoints={refused} kinds={kinds:?} tracking={trk:?}",
+        "scenarios={} executed={run} interleaved={nint} distinct_nontrivial={} steps={steps} violations={nviol} refused_savepoints={refused} kinds={kinds:?} tracking={trk:?} blocked_grants={nblocked}",
         scenarios.len(),
         distinct.len()
     );
